@@ -747,6 +747,32 @@ MUTANTS = [
                         });
                     }
 """, new=""),
+    dict(id="c13-nested-prints-primary-only", prop="C13", expect="R13.9|whole-child", file="crates/wac-parser/src/ast/printer.rs",
+         old="""                self.expr(&e.inner)?;
+                write!(self.writer, ")")""",
+         new="""                self.primary_expr(&e.inner.primary)?;
+                write!(self.writer, ")")"""),
+    dict(id="c17-local-include-stops-walk", prop="C17", expect="R17.1|stop-only-on-callback|world_item", file="crates/wac-resolver/src/visitor.rs",
+         old="""                WorldRef::Ident(_) => true,""", new="""                WorldRef::Ident(_) => false,"""),
+    dict(id="c17-targets-version-of-document", prop="C17", expect="R17.3|callback|visit", file="crates/wac-resolver/src/visitor.rs",
+         old="""                targets.version.as_ref(),""", new="""                doc.directive.package.version.as_ref(),"""),
+    dict(id="c19-overrides-filtered", prop="C19", expect="R19.4|R18.6/overrides-passed-through", file="src/lib.rs",
+         old="""            fs: FileSystemPackageResolver::new(dir, overrides, false),""",
+         new="""            fs: FileSystemPackageResolver::new(
+                dir,
+                overrides.into_iter().filter(|(_, p)| p.exists()).collect(),
+                false,
+            ),"""),
+    dict(id="c01-instance-core-type-count-from-types", prop="C01", expect="R01.1|forward|Encodable::core_type_count|Instance", file="crates/wac-graph/src/encoding.rs",
+         old="""            Encodable::Instance(t) => t.core_type_count(),""", new="""            Encodable::Instance(t) => t.type_count(),"""),
+    dict(id="c04-spread-export-empty-check-only", prop="C04", expect="R04.2|spread-export-effect", file="crates/wac-parser/src/resolution.rs",
+         edits=[("""                let mut exported = false;
+                for name in exports {""", """                let exported = !exports.is_empty();
+                for name in exports {"""),
+                ("""                    self.export_item(state, item, name, *span, false)?;
+                    exported = true;
+                }""", """                    self.export_item(state, item, name, *span, false)?;
+                }""")]),
     dict(id="c12-lexical-comment-needs-newline", prop="C12", expect="R12.10|pattern|Token::Comment", file="crates/wac-parser/src/lexer.rs",
          old="""    #[regex(r"//[^\\n]*", logos::skip)]""", new="""    #[regex(r"//[^\\n]*\\n", logos::skip)]"""),
     dict(id="c12-lexical-ident-digit-start", prop="C12", expect="R12.10|pattern|Token::Ident", file="crates/wac-parser/src/lexer.rs",
